@@ -10,3 +10,6 @@ NOTES = ("Technique family: machine-checked proof in Lean 4. Each check = kernel
          "model + a correspondence run of the same model against the real Go code on every run (see DESIGN.md). "
          "fix: commits in /repo and recorded findings are listed in known_findings.json.")
 NOT_APPLICABLE = {}
+
+# properties whose check exists but is being adapted right now (not claimed in MANIFEST until it is green again)
+PENDING = {"C09": "check built (Lean model + theorems + harness); being adapted to two fix: commits in /repo; not claimed until green"}
